@@ -71,6 +71,20 @@ CLAIMED = {
         "as KNOWN-FINDING. Fixed: reshape_rechunk IndexError (fix: commit c10f59b).",
         "DESIGN.md §4 C08, §9",
     ),
+    "C11": (
+        "TLC-enumerated histories of ArrayProgram.tla (handles onto denotations; in-place actions replace env[target] only) "
+        "replayed into dask_array with every live collection compared after every in-place action",
+        "Exhaustive within bounds over the lean domains: every behaviour over {Index, Elemwise, Rechunk, Transpose} and the in-place "
+        "actions SetItem (scalar / collection value; integer, slice, negative, stepped indices), MaskSet (NumPy and dask boolean "
+        "masks), OutUfunc (out=x) of depth 3 (1-D source) / 2 (2-D, 3-D sources) that contains an in-place action, x chunk-grid "
+        "variants.  After every in-place action and at the end, every live collection (the target, collections derived before and "
+        "after) is computed and compared with its current denotation in the specification's env; the user's source arrays are "
+        "compared with their initial contents.",
+        "Known finding F20 (x[i, ::-1] = v raises at graph build) is reported as KNOWN-FINDING. Fixed by fix: commits: setitem with a "
+        "multi-chunk dask value (53f0c33), slicing after out= (b433393). Binding negative control: in-place actions replayed as "
+        "no-ops must be detected.",
+        "DESIGN.md §4 C11, §9",
+    ),
     "C13": (
         "TLC-enumerated helper inputs; recorded outputs validated by TLC against Planner.tla (Trace_Plan)",
         "Exhaustive within bounds: TLC enumerates every (slice|int, axis length, chunking, pair of indices) of the "
